@@ -1,6 +1,6 @@
 (* C15 — property theorems only.  Proofs are one `exact`. *)
 From Coq Require Import List ZArith.
-From RD Require Import C15.Prim C15.PL C15.Qos C15.Disc C15.Model C15.Proofs.
+From RD Require Import C15.Prim C15.PL C15.Qos C15.Disc C15.Sedp C15.Model C15.Proofs.
 Import ListNotations.
 Open Scope Z_scope.
 
@@ -47,6 +47,51 @@ Theorem C15_unknown_skipped_spdp : forall e v extra ps',
   decode_spdp e (enc_pl e ps') = Ok v.
 Proof. exact unknown_skipped_spdp. Qed.
 Print Assumptions C15_unknown_skipped_spdp.
+
+(* ---- DiscoveredReaderData ---------------------------------------------------------------- *)
+Theorem C15_roundtrip_reader : forall e v, reader_ok v -> decode_reader e (encode_reader e v) = Ok v.
+Proof. exact roundtrip_reader. Qed.
+Print Assumptions C15_roundtrip_reader.
+
+Theorem C15_unknown_skipped_reader : forall e v extra ps',
+  reader_ok v -> Forall (foreign reader_pids) extra -> Merge (reader_to_params e v) extra ps' ->
+  decode_reader e (enc_pl e ps') = Ok v.
+Proof. exact unknown_skipped_reader. Qed.
+Print Assumptions C15_unknown_skipped_reader.
+
+(* ---- DiscoveredWriterData (repaired code; see C15_writer_old_refuted) ----------------------- *)
+Theorem C15_roundtrip_writer : forall e v, writer_ok v -> decode_writer e (encode_writer e v) = Ok v.
+Proof. exact roundtrip_writer. Qed.
+Print Assumptions C15_roundtrip_writer.
+
+Theorem C15_unknown_skipped_writer : forall e v extra ps',
+  writer_ok v -> Forall (foreign writer_pids) extra -> Merge (writer_to_params e v) extra ps' ->
+  decode_writer e (enc_pl e ps') = Ok v.
+Proof. exact unknown_skipped_writer. Qed.
+Print Assumptions C15_unknown_skipped_writer.
+
+(* pinned commit: service_instance_name / related_datareader_key / topic_aliases were written but
+   never read back (repaired by a fix: commit; the witness is corpus case `writer_rpc_fields`) *)
+Theorem C15_writer_old_refuted :
+  exists e v, writer_ok v /\ decode_writer_old e (encode_writer e v) <> Ok v.
+Proof. exact writer_old_refuted. Qed.
+Print Assumptions C15_writer_old_refuted.
+
+(* ---- DiscoveredTopicData ----------------------------------------------------------------- *)
+Theorem C15_roundtrip_topic : forall e v, topic_ok v -> decode_topic e (encode_topic e v) = Ok v.
+Proof. exact roundtrip_topic. Qed.
+Print Assumptions C15_roundtrip_topic.
+
+Theorem C15_unknown_skipped_topic : forall e v extra ps',
+  topic_ok v -> Forall (foreign topic_pids) extra -> Merge (topic_to_params e v) extra ps' ->
+  decode_topic e (enc_pl e ps') = Ok v.
+Proof. exact unknown_skipped_topic. Qed.
+Print Assumptions C15_unknown_skipped_topic.
+
+(* ---- ParticipantMessageData (plain CDR) -------------------------------------------------- *)
+Theorem C15_roundtrip_pmd : forall e p, pmd_ok p -> decode_pmd e (enc_pmd e p) = Ok p.
+Proof. exact roundtrip_pmd. Qed.
+Print Assumptions C15_roundtrip_pmd.
 
 (* ---- defaults ---------------------------------------------------------------------------- *)
 (* whatever bytes were decoded: every field whose parameter is absent from the wire has its default *)
@@ -97,4 +142,20 @@ Example spdp_minimal_defaults :
   decode_spdp LE (enc_pl LE [(21, [2;3]); (22, [1;18]); (80, [1;2;3;4;5;6;7;8;9;10;11;12;0;0;1;193]);
                             (88, [63;12;0;24])])
   = Ok (Build_spdp (2, 3) (1, 18) false [1;2;3;4;5;6;7;8;9;10;11;12;0;0;1;193] [] [] [] [] 402656319 None 0 None None).
+Proof. vm_compute. reflexivity. Qed.
+
+Example reader_ex : reader_data :=
+  Build_reader_data [1;2;3;4;5;6;7;8;9;10;11;12;0;0;1;7] true [LUdpV4 10 0 0 1 7411] []
+    [1;2;3;4;5;6;7;8;9;10;11;12;0;0;1;7] (Some [1;2;3;4;5;6;7;8;9;10;11;12;0;0;1;193])
+    [83;113;117;97;114;101] [83;104;97;112;101;84;121;112;101]
+    (Build_qos (Some Volatile) None None None (Some Shared) None None (Some BestEffort) None None None None)
+    (Some (Build_content_filter [102] [83;113] [68;68;83;83;81;76] [120;62;37;48] [[49;48]; []])).
+Example reader_ex_ok : reader_okb reader_ex = true. Proof. vm_compute. reflexivity. Qed.
+Example reader_ex_roundtrip : decode_reader LE (encode_reader LE reader_ex) = Ok reader_ex.
+Proof. vm_compute. reflexivity. Qed.
+Example writer_witness_now : decode_writer LE (encode_writer LE writer_witness) = Ok writer_witness.
+Proof. vm_compute. reflexivity. Qed.
+Example writer_witness_okb : writer_okb writer_witness = true. Proof. vm_compute. reflexivity. Qed.
+Example pmd_ex : decode_pmd BE (enc_pmd BE (Build_pmd [1;2;3;4;5;6;7;8;9;10;11;12] [0;0;0;1] [9;9;9]))
+                 = Ok (Build_pmd [1;2;3;4;5;6;7;8;9;10;11;12] [0;0;0;1] [9;9;9]).
 Proof. vm_compute. reflexivity. Qed.
